@@ -334,6 +334,37 @@ def check_shapes(ctx: Ctx, chunk: list, n: int) -> None:
             rec.seen("shapes_with_wrong_kind", ex)
 
 
+TRIO_STYLES = [("addressLine", "address_line", "address_line_2"), ("userId", "user_id", "user_id_2"), ("itemCount", "item-count", "item_count_2"),
+               ("Name", "name", "name_2"), ("a.b", "a-b", "a_b_2"), ("x1", "X1", "x1_2"), ("homeURL", "home_url", "home_url_2"),
+               ("class", "class_", "class__2")]
+
+
+def trio_items(ctx: Ctx) -> list[dict]:
+    """Models whose wire keys crowd around ONE derived field name: two spellings of the same words plus a key spelled like
+    the name a de-collided field gets, in every declaration order, with each of the three in turn being the required one."""
+    items = []
+    n = 0
+    for style in TRIO_STYLES:
+        for order in itertools.permutations(range(3)):
+            n += 1
+            if not ctx.mine(n):
+                continue
+            schemas, resolved = {}, {}
+            for req_i in range(3):
+                name = f"Trio{req_i}"
+                keys = [style[i] for i in order]
+                kinds = {style[0]: "string", style[1]: "integer", style[2]: "string"}
+                schemas[name] = {"type": "object", "required": [style[req_i]], "properties": {k: {"type": kinds[k]} for k in keys}}
+                resolved[name] = {k: (kinds[k], k == style[req_i], None) for k in keys}
+            doc = {"openapi": "3.0.3", "info": {"title": "T", "version": "1"}, "components": {"schemas": schemas},
+                   "paths": {"/op1/x": {"get": {"operationId": "getX", "responses": {"200": {"description": "ok"}}}}}}
+            items.append({"doc": doc, "resolved": resolved, "on_cycle": set(), "desc": {"phase": "name_trio", "style": list(style), "order": list(order)},
+                          "feats": ["name_trio"], "n": ctx.shard * 100000 + 90000 + n})
+            ctx.rec.case({"trio": style, "order": order})
+            ctx.rec.count("name_trio_documents")
+    return items
+
+
 def run_shard(ctx: Ctx) -> None:
     common.use_repo()
     logging.disable(logging.CRITICAL)
@@ -370,6 +401,9 @@ def run_shard(ctx: Ctx) -> None:
                 pkg_batch = []
     if pkg_batch:
         check_pkg(ctx, pkg_batch)
+    ti = trio_items(ctx)
+    for i in range(0, len(ti), 10):
+        check_pkg(ctx, ti[i:i + 10])
     chunks = shapes.chunked(2 if ctx.quick else 3, 20)
     for ci, chunk in enumerate(chunks):
         if ctx.mine(ci):
@@ -386,6 +420,12 @@ def replay(ctx: Ctx, file: dict) -> None:
         check_shapes(ctx, [(j, tuple(s2)) for j, s2 in file["case"].get("chunk") or [[file["case"]["index"], file["case"]["shape"]]]], 1)
         return
     d = file["case"]["desc"]
+    if d.get("phase") == "name_trio":
+        doc = file["case"]["doc"]
+        resolved = {nm: {k: (v["type"], k in sch.get("required", []), None) for k, v in sch["properties"].items()}
+                    for nm, sch in doc["components"]["schemas"].items()}
+        check_pkg(ctx, [{"doc": doc, "resolved": resolved, "on_cycle": set(), "desc": d, "feats": ["name_trio"], "n": 1}])
+        return
     edges = {}
     for part in filter(None, d["edges"].split(";")):
         ij, kind = part.split(":")
